@@ -27,7 +27,7 @@ def point_names(system, pt, marker="__d"):
         d[U.var_name(system, gi, marker)] = str(pt[("v", gi)])
     for k, nm in enumerate(system["params"]):
         d[nm] = str(pt[("p", k)])
-    d["t"] = str(pt[("t",)])
+    d[system.get("time_symbol", "t")] = str(pt[("t",)])
     return d
 
 
